@@ -11,7 +11,9 @@ RT_C = os.path.join(VERIF, 'rt', 'vf_rt.c')
 RT_DIR = os.path.join(VERIF, 'rt')
 LL2C = os.path.join(VERIF, 'tools', 'll2c.py')
 
-CLANG_IR_FLAGS = ['-O1', '-fno-vectorize', '-fno-slp-vectorize', '-fno-unroll-loops', '-fno-access-control', '-DNDEBUG']
+CLANG_IR_FLAGS = ['-O1', '-fno-vectorize', '-fno-slp-vectorize', '-fno-unroll-loops', '-fno-access-control', '-DNDEBUG',
+                  # do not tail-merge calls: two vf_assert calls merged into one with a phi'd message could not be attributed to a property
+                  '-mllvm', '-simplifycfg-sink-common=false']
 CBMC_FLAGS = ['--unwinding-assertions', '--pointer-overflow-check', '--undefined-shift-check',
               '--drop-unused-functions', '--no-malloc-may-fail', '--json-ui', '--verbosity', '8']
 
@@ -55,7 +57,7 @@ def build_ir(j, wd):
           ['-S', '-emit-llvm', harness_path(j), '-o', ll]
     r = sh(cmd)
     if r.returncode != 0:
-        return None, 'clang failed: ' + r.stderr[-3000:]
+        return None, 'clang failed: ' + r.stderr[:6000]
     return ll, None
 
 def gch_functions(j, wd):
@@ -268,7 +270,8 @@ def replay(j, prop_dir, inputs, want_msg=None):
     def confirmed(r):
         if 'error' in r: return False
         if want_msg is not None and any(want_msg == f for f in r['fails']): return True
-        return want_msg is None and (bool(r['fails']) or bool(r['san']))
+        if r['san']: return True   # a sanitizer report on the solver's inputs is a reproduction (it may stop the run before the assertion is reached)
+        return want_msg is None and bool(r['fails'])
     ok = any(confirmed(r) for r in res.values())
     san_only = (not ok) and any(('error' not in r) and (r['san'] or r['fails']) for r in res.values())
     return {'confirmed': ok, 'other_failure': san_only, 'runs': res}
